@@ -335,7 +335,8 @@ def variants(chk, gens, oracle, tag, limit=12):
             if storage and getattr(g, 'scale', 1) < 1e-3:
                 continue      # nanomole-scale histories have two significant digits left under a coarser storage unit
             prog = json.loads(json.dumps(g.prog() if hasattr(g, 'prog') else g))
-            refobs.append(getattr(g, 'obs', None))
+            # (exactly-on-boundary requests are decided by the last digit of the stored amounts: not compared across storage units)
+            refobs.append(None if storage and any(str(k).startswith('boundary:') for k in getattr(g, 'stats', {})) else getattr(g, 'obs', None))
             if 'volume_storage_unit' in overrides or 'moles_storage_unit' in overrides:
                 prog['tol_k'] = 1000.0
             if dens:
